@@ -1,23 +1,39 @@
 (* What a reader sees: text of a run (token level), and tags of sentinel-carrying rows. *)
 From Coq Require Import Ascii String.
 From Coq Require Import List NArith ZArith Bool Arith.
-From V Require Import Str Tok Items Read.
+From V Require Import Str Tok Items Read Bytes.
 Import ListNotations.
 Local Open Scope list_scope.
 
 (* decode the text of a run body: \uN -> UTF-16 unit (N mod 2^16) followed by skipping uc fallback
    characters; other control words and braces carry no text *)
-Fixpoint units_of (ts : list tok) (uc : nat) (skip : nat) (acc : list N) : list N :=
+Fixpoint units_of (ts : list tok) (uc : nat) (skip : nat) (hex : bool) (acc : list N) : list N :=
   match ts with
   | [] => rev' acc
   | TText s :: r =>
-    let s' := drop skip s in
-    units_of r uc (skip - length s) (rev_append s' acc)
+    (* after \'  the first two characters are hex digits of one ANSI-code-page character *)
+    let '(s1, skip1, acc1) :=
+        if hex then
+          match s with
+          | a :: b :: s' =>
+            match hexval a, hexval b with
+            | Some x, Some y =>
+              match skip with
+              | O => (s', O, cp1252 (x * 16 + y)%N :: acc)
+              | S k => (s', k, acc)
+              end
+            | _, _ => (s, skip, acc)
+            end
+          | _ => (s, skip, acc)
+          end
+        else (s, skip, acc) in
+    units_of r uc (skip1 - length s1) false (rev_append (drop skip1 s1) acc1)
+  | TSym 39%N :: r => units_of r uc skip true acc
   | TCtrl n (Some z) :: r =>
-    if str_eqb n (s2l "u") then units_of r uc uc (Z.to_N (Z.modulo z 65536) :: acc)
-    else if str_eqb n (s2l "uc") then units_of r (Z.to_nat z) 0 acc
-    else units_of r uc 0 acc
-  | _ :: r => units_of r uc 0 acc
+    if str_eqb n (s2l "u") then units_of r uc uc false (Z.to_N (Z.modulo z 65536) :: acc)
+    else if str_eqb n (s2l "uc") then units_of r (Z.to_nat z) 0 false acc
+    else units_of r uc 0 false acc
+  | _ :: r => units_of r uc 0 false acc
   end.
 
 (* recombine surrogate pairs *)
@@ -39,7 +55,7 @@ Fixpoint comb (us : list N) (pending : option N) : list N :=
   end.
 Definition combine_surrogates (us : list N) : list N := comb us None.
 
-Definition decode_tokens (ts : list tok) : str := combine_surrogates (units_of ts 1 0 []).
+Definition decode_tokens (ts : list tok) : str := combine_surrogates (units_of ts 1 0 false []).
 
 (* character-formatting control words that may precede the text inside a run group *)
 Definition cell_text (c : cell) : str := decode_tokens (rn_body (ce_run c)).
